@@ -1039,6 +1039,65 @@ add_restore_ownership_to_transaction (BusTransaction *transaction,
   return TRUE;
 }
 
+typedef struct
+{
+  BusOwner       *owner;
+  BusService     *service;
+} OwnershipSwapData;
+
+static void
+restore_swapped_owner (void *data)
+{
+  OwnershipSwapData *d = data;
+  DBusList *link;
+
+  /* The swap was cancelled (effectively never happened): the former
+   * primary owner is still in the queue, move it back to the front. */
+  link = _dbus_list_find_last (&d->service->owners, d->owner);
+  _dbus_assert (link != NULL);
+
+  _dbus_list_unlink (&d->service->owners, link);
+  _dbus_list_prepend_link (&d->service->owners, link);
+}
+
+static void
+free_ownership_swap_data (void *data)
+{
+  OwnershipSwapData *d = data;
+
+  bus_owner_unref (d->owner);
+  bus_service_unref (d->service);
+
+  dbus_free (d);
+}
+
+static dbus_bool_t
+add_restore_swap_to_transaction (BusTransaction *transaction,
+                                 BusService     *service,
+                                 BusOwner       *owner)
+{
+  OwnershipSwapData *d;
+
+  d = dbus_new (OwnershipSwapData, 1);
+  if (d == NULL)
+    return FALSE;
+
+  d->service = service;
+  d->owner = owner;
+
+  bus_service_ref (d->service);
+  bus_owner_ref (d->owner);
+
+  if (!bus_transaction_add_cancel_hook (transaction, restore_swapped_owner, d,
+                                        free_ownership_swap_data))
+    {
+      free_ownership_swap_data (d);
+      return FALSE;
+    }
+
+  return TRUE;
+}
+
 dbus_bool_t
 bus_service_swap_owner (BusService     *service,
                         DBusConnection *connection,
@@ -1099,7 +1158,9 @@ bus_service_swap_owner (BusService     *service,
         return FALSE;
     }
 
-  if (!add_restore_ownership_to_transaction (transaction, service, primary_owner))
+  /* The primary owner stays in the queue, so undoing this must move it
+   * back, not link it a second time as restore_ownership() would */
+  if (!add_restore_swap_to_transaction (transaction, service, primary_owner))
     {
       BUS_SET_OOM (error);
       return FALSE;
